@@ -14,6 +14,7 @@ def run(chk):
     res = vlib.tlc('MC_Codec', cfg='MC_Codec.cfg' if chk.quick else 'MC_Codec_thorough.cfg', workers=8, xss='256m',
                    timeout=3000, tag='MC_Codec')
     vlib.expect_mc_ok(chk, res, 'MC_Codec')
+    okm = cc.replay_model_behaviours(chk, exe, 40 if chk.quick else 600)
     if chk.quick:
         jobs = cfg_jobs(CFGS, 2, 6, 1, 'perm')
         jobs += cfg_jobs(['16000:8:1:1:8'], 2, 4, 1, 'learned')
@@ -26,7 +27,7 @@ def run(chk):
         rankmax = 110
     ok, st = cc.run_traces(chk, exe, jobs, rankmax, nproc=14, timeout=6000)
     chk.cov['evaluations'] = st['deliver']
-    chk.cov['distinct_nontrivial'] = st['histories'] if ok else 0
+    chk.cov['distinct_nontrivial'] = st['histories'] if (ok and okm) else 0
     chk.cov['stats'] = st
     chk.cov['rule'] = ('for each packet multiset 6 (quick) / 9 (thorough) histories: permutations, block-wise and reversed '
                        'orders, duplicates, batches through SourceBlockDecoder::decode(iterator), both object APIs, clones '
